@@ -9,7 +9,7 @@ from ..lang import CMP_OPS
 PROPERTY = "C06"
 LEVEL = "exploration"
 TIMEOUT = 240
-BUDGET = {"quick": 150, "thorough": 1500}
+BUDGET = {"quick": 600, "thorough": 3600}
 RULE = ("Seeded random programs placing circuit-controllable entities (lamps, inserters, belts, pumps, power "
         "switches, train stops, assemblers) whose `enable` is an inlinable comparison, a non-inlinable comparison, "
         "arithmetic, a logical chain, a plain signal, any()/all() of a bundle, or a comparison shared with another "
